@@ -161,7 +161,19 @@ func (m *Machine) isMultiple(t *smt.Term, unit uint64) bool {
 func timeIntrinsics(I map[string]Intrinsic) {
 	I["time.Unix"] = func(m *Machine, fn *ssa.Function, a []Value) Value {
 		c := m.ctx
-		return m.mkTime(c.Add(c.Mul(term(a[0]), c.BV(1e9, 64)), term(a[1])))
+		sec, nsec := term(a[0]), term(a[1])
+		// time.Unix(t.Unix(), t.Nanosecond()) is t (the protobuf timestamp round trip)
+		// (the nanosecond part may have gone through an int32: the remainder is below 2^30, so
+		// narrowing and re-widening it changes nothing)
+		for (nsec.Op == "sext" || nsec.Op == "zext") && nsec.Args[0].Op == "extract" && nsec.Args[0].P[1] == 0 &&
+			nsec.Args[0].P[0] >= 30 && nsec.Args[0].Args[0].Op == "bvurem" && nsec.Args[0].Args[0].W == 64 {
+			nsec = nsec.Args[0].Args[0]
+		}
+		if sec.Op == "bvudiv" && nsec.Op == "bvurem" && sec.Args[0] == nsec.Args[0] && sec.Args[1] == nsec.Args[1] &&
+			sec.Args[1].IsConst() && sec.Args[1].C == 1e9 {
+			return m.mkTime(sec.Args[0])
+		}
+		return m.mkTime(c.Add(c.Mul(sec, c.BV(1e9, 64)), nsec))
 	}
 	I["time.UnixMilli"] = func(m *Machine, fn *ssa.Function, a []Value) Value {
 		return m.mkTime(m.ctx.Mul(term(a[0]), m.ctx.BV(1e6, 64)))
@@ -270,7 +282,52 @@ func timeIntrinsics(I map[string]Intrinsic) {
 		return nil
 	}
 	str := func(m *Machine, fn *ssa.Function, a []Value) Value { return "<time>" }
-	I["(time.Time).Format"], I["(time.Time).String"], I["(time.Duration).String"] = str, str, str
+	I["(time.Time).String"], I["(time.Duration).String"] = str, str
+	// Format/Parse: a constant instant is formatted for real (UTC); a symbolic instant formatted
+	// with RFC3339Nano or RFC3339 becomes an opaque text token that remembers the instant at the
+	// layout's precision (RFC3339 has no fractional seconds), and time.Parse of the token gives
+	// that instant back. Any other use of the token treats it as an ordinary (unparseable) text.
+	I["(time.Time).Format"] = func(m *Machine, fn *ssa.Function, a []Value) Value {
+		layout, ok := concStr(a[1])
+		if !ok {
+			return "<time>"
+		}
+		wall, ext := m.timeParts(m.recvTime(a[0]))
+		if wall.IsConst() && wall.C == 0 {
+			return time.Time{}.Format(layout)
+		}
+		if ext.IsConst() {
+			return time.Unix(0, int64(ext.C)).UTC().Format(layout)
+		}
+		switch layout {
+		case time.RFC3339Nano:
+		case time.RFC3339:
+			ext = m.floorTo(ext, 1000000000)
+		default:
+			return "<time>"
+		}
+		m.timeStrs = append(m.timeStrs, ext)
+		return fmt.Sprintf("\x00time#%d\x00", len(m.timeStrs)-1)
+	}
+	I["time.Parse"] = func(m *Machine, fn *ssa.Function, a []Value) Value {
+		layout, ok1 := concStr(a[0])
+		val, ok2 := concStr(a[1])
+		if !ok1 || !ok2 {
+			m.unsupported("time.Parse of a symbolic string")
+		}
+		var idx int
+		if n, _ := fmt.Sscanf(val, "\x00time#%d\x00", &idx); n == 1 && idx < len(m.timeStrs) {
+			if layout != time.RFC3339 && layout != time.RFC3339Nano {
+				m.unsupported("time.Parse of a formatted symbolic instant with layout " + layout)
+			}
+			return TupleV{m.mkTime(m.timeStrs[idx]), IfaceV{}}
+		}
+		t, err := time.Parse(layout, val)
+		if err != nil {
+			return TupleV{StructV{m.ctx.BV(0, 64), m.ctx.BV(0, 64), Ptr{}}, m.newError(err.Error(), nil)}
+		}
+		return TupleV{m.mkTime(m.ctx.BV(uint64(t.UnixNano()), 64)), IfaceV{}}
+	}
 	I["(time.Time).AppendFormat"] = func(m *Machine, fn *ssa.Function, a []Value) Value { return a[1] }
 	I["time.Now"] = func(m *Machine, fn *ssa.Function, a []Value) Value {
 		// only reachable from code whose result the properties do not depend on (last-access stamps, logs)
